@@ -341,6 +341,8 @@ def cmp_value(kind, x, y):
     a, b = rank(x), rank(y)
     if kind == 'len':
         a, b = (a[0], a[1] if a[0] == 3 else 0), (b[0], b[1] if b[0] == 3 else 0)
+    if kind == 'diff' and a[0] == 2 and b[0] == 2:
+        return (a[1] - b[1]) / 4.0          # the usual 'return a - b' compare function: fractional answers
     c = -1.0 if a < b else (0.0 if a == b else 1.0)
     return -c if kind in ('desc', 'nested') and c else c
 
